@@ -50,6 +50,10 @@ def main(tier):
             s1 = solo_delta(run, gamma, timeout, i, alph, label + '/solo%d' % i)
             delta[i] = s1.delta; dcomplete[i] = s1.complete
             nsolo += len(s1.states); tsolo += s1.transitions
+            for tag, text, sid, ev, cev, out in s1.violations:
+                if tag.startswith('C07.'):
+                    run.violation(tag, '[%s/solo%d] %s  (history: %s => %s)' % (label, i, text, ' | '.join(proto.ev_str(e) for e in s1.sym_history(sid)) or '-', proto.ev_str(ev)),
+                                  s1.replay_obj(sid, ev, cev, {'clause': tag, 'search': label}), dedup=label + '|solo|' + tag)
         sp = pcommon.S(label, gamma, timeout, ids, alph(ids), maxdepth=maxdepth)
         kw = dict(sp); kw.pop('label')
         s = psearch.Search(run, kw.pop('services'), kw.pop('rules'), kw.pop('timeout'), kw.pop('ids'), kw.pop('alphabet'), label=label,
